@@ -1255,6 +1255,7 @@ func genCallCase(rt *rapid.T) callCase {
 func init() {
 	replayRegistrars = append(replayRegistrars, func() {
 		registerReplay("C03/calls", func(c callCase) *fail { return runCallCase(c, nil) })
+		registerReplay("C03/concurrent-reads", runConcReadCase)
 		registerReplay("C01/client-server", func(c callCase) *fail { return runCallCase(c, nil) })
 	})
 }
@@ -1265,6 +1266,17 @@ func TestC03(t *testing.T) {
 	h := begin(t, "C03")
 	defer h.Finish()
 	env := h.Env
+	// two reads in flight on one connection after reads that ended at the end of
+	// the file (the backend returns data together with io.EOF): each caller gets
+	// the bytes its own File returned (engine of C11)
+	rapidCases(h, "concurrent-reads", env.PerShard(env.Pick(400, 20000)), func(rt *rapid.T) concReadCase {
+		return concReadCase{EOFReads: rapid.IntRange(1, 4).Draw(rt, "eof"), SizeA: rapid.SampledFrom([]int{1, 100, 3000, 5000, 12000}).Draw(rt, "sa"),
+			SizeB: rapid.SampledFrom([]int{1, 100, 3000, 5000}).Draw(rt, "sb"), Msize: rapid.SampledFrom([]uint32{4096, 8192, 65536}).Draw(rt, "msize"),
+			After: rapid.Bool().Draw(rt, "after")}
+	}, func(c concReadCase) *fail {
+		h.Case(evid.HashJSON(c), true, "concurrent-reads")
+		return runConcReadCase(c)
+	})
 	// every method x every version x both backends once with plain arguments
 	if env.Shard == 0 {
 		for _, m := range callMethods {
